@@ -346,3 +346,115 @@ def replay_late_load_under_pressure(inputs, obl):
         return dict(confirmed=False, detail=f"late load under memory pressure: get returned {'OLD' if g == OLD else 'NEW'}, accounting {cur}=={tot}")
     finally:
         shutil.rmtree(d, ignore_errors=True)
+
+
+def replay_unload_during_write(inputs, obl):
+    """schedule: update(f, NEW) [write W queued] | unload(f) | get(f) [no entry: load L queued] | L completes (reads OLD) | W completes.
+    When every call has returned, the cached contents, the disk and the last successful update must agree and the accounting must
+    equal the cached bytes."""
+    import time
+    c, d = _cache()
+    try:
+        OLD, NEW = b'old', b'newer'
+        with open(os.path.join(d, 'f'), 'wb') as fh:
+            fh.write(OLD)
+        out = {}
+
+        def wait_tasks(n):
+            t0 = time.time()
+            while len(c.executor.tasks) < n and time.time() - t0 < 3:
+                time.sleep(0.001)
+            return len(c.executor.tasks) >= n
+        t1 = threading.Thread(target=lambda: out.setdefault('up', _call(c.update_file, 'f', NEW)))
+        t1.start()
+        if not wait_tasks(1):
+            return dict(confirmed=False, detail='write was not submitted')
+        c.unload_file('f')
+        t2 = threading.Thread(target=lambda: out.setdefault('get', _call(c.get_file, 'f')))
+        t2.start()
+        if wait_tasks(2):                           # a load was admitted next to the pending write: run it first
+            l = c.executor.tasks.pop(1)
+            try:
+                l[0].set_result(l[1](*l[2]))
+            except BaseException as e:
+                l[0].set_exception(e)
+        while c.executor.tasks:
+            c.executor.run_next()
+        t1.join(5); t2.join(5)
+        if t1.is_alive() or t2.is_alive():
+            return dict(confirmed=True, detail='update(f); unload(f); get(f): a call did not return')
+        t3 = threading.Thread(target=lambda: out.setdefault('get2', _call(c.get_file, 'f')))
+        t3.start()
+        time.sleep(0.1)
+        while c.executor.tasks:
+            c.executor.run_next()
+        t3.join(5)
+        disk = open(os.path.join(d, 'f'), 'rb').read()
+        ent = c.file_futures.get('f')
+        cur, tot = _acct(c)
+        problems = []
+        if out.get('up') is True and out.get('get2') != NEW:
+            problems.append(f"update(f,{NEW!r}) reported success, the disk holds {disk!r}, but a get after everything finished returns {out.get('get2')!r}")
+        if ent is not None and not ent[0] and ent[2].done() and ent[2].exception() is None and ent[1] != len(ent[2].result()):
+            problems.append(f"the entry accounts {ent[1]} bytes for {len(ent[2].result())}-byte contents")
+        if cur != tot:
+            problems.append(f"current_memory_usage={cur}, cached entries sum to {tot}")
+        if out.get('get') not in (OLD, NEW):
+            problems.append(f"the overlapping get returned {out.get('get')!r}")
+        if problems:
+            return dict(confirmed=True, detail="update(f,NEW) [write queued]; unload(f); get(f) [load queued next to the write]; load runs; write runs: " + '; '.join(problems))
+        return dict(confirmed=False, detail=f"unload during a pending write: get afterwards returns {out.get('get2')!r}, disk {disk!r}: consistent")
+    finally:
+        shutil.rmtree(d, ignore_errors=True)
+
+
+def replay_late_load_accounting(inputs, obl):
+    """schedule: get(f) - its load has read OLD and is about to account it | update(f, NEW) completes and is cached | the load's
+    completion handler runs.  Afterwards every cached entry must account exactly the length of the contents it holds."""
+    from klongpy.db.file_cache import FileCache
+    d = tempfile.mkdtemp(prefix='c18_replay_')
+    try:
+        c = FileCache(max_memory=1000, root_path=d)
+        OLD, NEW = b'old', b'newer-contents'
+        with open(os.path.join(d, 'f'), 'wb') as fh:
+            fh.write(OLD)
+        gate, arrived = threading.Event(), threading.Event()
+        real = c.update_file_futures_and_memory
+
+        def gated(file_name, memory_usage, *a, **kw):
+            if (a and a[0]) or kw.get('loaded'):
+                arrived.set()
+                gate.wait(10)
+            return real(file_name, memory_usage, *a, **kw)
+        c.update_file_futures_and_memory = gated
+        out = {}
+        t1 = threading.Thread(target=lambda: out.setdefault('get', _call(c.get_file, 'f')))
+        t1.start()
+        if not arrived.wait(5):
+            gate.set()
+            t1.join(5)
+            return dict(confirmed=False, detail='the load never reached its completion handler with loaded=True')
+        ok = _call(c.update_file, 'f', NEW)
+        gate.set()
+        t1.join(5)
+        problems = []
+        if t1.is_alive():
+            problems.append('the get did not return')
+        with c.file_futures_lock:
+            for fn, (w, b, fut) in c.file_futures.items():
+                if not w and fut.done() and fut.exception() is None and b != len(fut.result()):
+                    problems.append(f"entry {fn!r} accounts {b} bytes for {len(fut.result())}-byte contents {fut.result()!r}")
+            cur = c.current_memory_usage
+            tot = sum(len(fut.result()) for (w, b, fut) in c.file_futures.values() if not w and fut.done() and fut.exception() is None)
+        if cur != tot:
+            problems.append(f"current_memory_usage={cur}, the cached contents sum to {tot} bytes")
+        try:
+            c.executor.shutdown(wait=False)
+        except Exception:
+            pass
+        if problems:
+            return dict(confirmed=True, detail="get(f): the load has read OLD and is about to account it; update(f,NEW) completes and is cached; the load's "
+                                               "completion handler runs: " + '; '.join(problems))
+        return dict(confirmed=False, detail=f"late load completion after a cached write: accounting {cur} == {tot}, update -> {ok!r}, get -> {out.get('get')!r}")
+    finally:
+        shutil.rmtree(d, ignore_errors=True)
